@@ -345,7 +345,13 @@ func (ck *checker) report(cfg Config, ops []Op, c Case, fd Finding) {
 	ck.perAssertion[fd.Assertion]++
 	rp := replay{Config: mcfg, Ops: append([]Op{}, mops...), Case: mc}
 	// before believing it: the case must fail identically on a fresh application
-	if d, ok := confirm(rp, mf.Assertion); !ok || d != mf.Detail {
+	d, ok := confirm(rp, mf.Assertion)
+	if ok && d != mf.Detail {
+		// same assertion, different wording: error texts of the code under test may carry addresses or amounts that
+		// depend on what ran before; the failure itself reproduces
+		mf.Detail += " || a fresh application replaying the same operations fails the same assertion with: " + d
+	}
+	if !ok {
 		// The exploring process saw the oracle fail, a fresh application replaying the same operations does not (or
 		// fails differently). The harness keeps no state of its own between cases (on the tree it was written against
 		// nothing ever fails, so there is nothing to reproduce); what differs between the two runs is the memory of the
